@@ -382,7 +382,11 @@ def main(engine_cls):
         if not max_runs:
             max_runs = engine_cls.quick_runs
     else:
-        budget = engine_cls.thorough_budget
+        # also a fixed set of run indices (ten times the quick tier unless the engine says otherwise):
+        # what the thorough tier reports does not depend on how fast the machine is
+        budget = engine_cls.thorough_budget * 3
+        if not max_runs:
+            max_runs = getattr(engine_cls, "thorough_runs", engine_cls.quick_runs * 10)
     total = explore(engine_cls, tier, seed, budget, max_runs, args.workers)
     wall_explore = time.time() - t_start
 
